@@ -110,10 +110,21 @@ type SpecDB struct {
 	MethodLaws   map[string]*Expr
 	Files        []string
 	Markers      []string // trusted/assume markers found
+	Monitors     map[string]*Monitor // "StructType.mutexField"
+}
+
+// Monitor: a mutex field of a struct protects other fields of the same struct. Lock() havocs the
+// protected fields (other goroutines may have changed them) and assumes the invariants; Unlock()
+// must re-establish the invariants; every access to a protected field requires the lock.
+type Monitor struct {
+	Struct   string
+	Mutex    string
+	Protects []string
+	Invs     []Clause
 }
 
 func NewSpecDB() *SpecDB {
-	return &SpecDB{Contracts: map[string]*Contract{}, Externs: map[string]*Contract{}, Funs: map[string]*SpecFun{}, UFuns: map[string]*UFun{}, Consts: map[string]string{}, Methods: map[string]bool{}, Globals: map[string]string{}, FuncTypes: map[string]bool{}, MethodDefs: map[string]*SpecFun{}, FuncTypeLaws: map[string]*Expr{}, MethodLaws: map[string]*Expr{}}
+	return &SpecDB{Contracts: map[string]*Contract{}, Externs: map[string]*Contract{}, Funs: map[string]*SpecFun{}, UFuns: map[string]*UFun{}, Consts: map[string]string{}, Methods: map[string]bool{}, Globals: map[string]string{}, FuncTypes: map[string]bool{}, MethodDefs: map[string]*SpecFun{}, FuncTypeLaws: map[string]*Expr{}, MethodLaws: map[string]*Expr{}, Monitors: map[string]*Monitor{}}
 }
 
 type specLine struct {
@@ -172,6 +183,7 @@ func (db *SpecDB) LoadSpecFile(path string) error {
 		joined = append(joined, l)
 	}
 	var cur *Contract
+	var curMon *Monitor
 	for _, l := range joined {
 		kw, rest := splitKeyword(l.text)
 		fail := func(err error) error { return fmt.Errorf("%s:%d: %v (in %q)", l.file, l.line, err, l.text) }
@@ -279,6 +291,31 @@ func (db *SpecDB) LoadSpecFile(path string) error {
 			}
 			db.Funs[name] = &SpecFun{Name: name, Params: params, Body: body, Inline: kw == "macro"}
 			cur = nil
+		case "monitor":
+			f := strings.Split(strings.TrimSpace(rest), ".")
+			if len(f) != 2 {
+				return fail(fmt.Errorf("monitor <Struct>.<mutexField>"))
+			}
+			curMon = &Monitor{Struct: f[0], Mutex: f[1]}
+			db.Monitors[f[0]+"."+f[1]] = curMon
+			db.Markers = append(db.Markers, "monitor "+rest)
+			cur = nil
+		case "protects":
+			if curMon == nil {
+				return fail(fmt.Errorf("protects outside a monitor"))
+			}
+			for _, p := range strings.Split(rest, ",") {
+				curMon.Protects = append(curMon.Protects, strings.TrimSpace(p))
+			}
+		case "invariant":
+			if curMon == nil {
+				return fail(fmt.Errorf("invariant outside a monitor"))
+			}
+			c, err := parseClause(rest)
+			if err != nil {
+				return fail(err)
+			}
+			curMon.Invs = append(curMon.Invs, c)
 		case "axiom":
 			c, err := parseClause(rest)
 			if err != nil {
@@ -403,7 +440,7 @@ func (db *SpecDB) LoadSpecFile(path string) error {
 	return nil
 }
 
-var keywords = map[string]bool{"macro": true, "functype": true, "global": true, "func": true, "extern": true, "method": true, "ufun": true, "fun": true, "axiom": true, "const": true, "defines": true,
+var keywords = map[string]bool{"macro": true, "functype": true, "global": true, "func": true, "extern": true, "method": true, "ufun": true, "fun": true, "axiom": true, "const": true, "defines": true, "monitor": true, "protects": true, "invariant": true,
 	"requires": true, "ensures": true, "panics": true, "assigns": true, "loop": true, "property": true, "inline": true, "pure": true,
 	"nosafety": true, "opaque": true, "params": true, "results": true, "calls": true, "frameprop": true, "trusted": true, "purecallbacks": true}
 
